@@ -1208,7 +1208,11 @@ def parseErrIndex (tokens : List Token) (tokenIndex : Nat) : Nat :=
 /-- `execute` from the token list on -/
 def runTokens (env : Env) (tokens : List Token) : Env × Outcome :=
   match Parser.parse tokens with
-  | .error (.parsing i) => (env, .parseErr (parseErrIndex tokens i))
+  | .error (.parsing i) =>
+    -- `instant_from_iso` runs when the parser reads an instant token and may raise there: an instant
+    -- token before the offending one puts the input outside the model
+    if (tokens.take i).any (fun t => t.tag == .inst) then (env, .unmodelled "instant")
+    else (env, .parseErr (parseErrIndex tokens i))
   | .error .overflow => (env, .escaped "OverflowError")
   | .error .fuel => (env, .unmodelled "parser bound")
   | .ok t => runTree env t
